@@ -4,6 +4,14 @@
 // index, together with every member's own matches (ids, sort keys, stored fields, HitNumber),
 // MaxScore and facet results (the inputs of the alias layer).  The harness computes no expected
 // answer: the Coq side evaluates the MultiSearch model and the property oracle (Collect/ShardsCorr.v).
+//
+// Pre-search worlds: the mapping additionally has a text field "t" with a synonym source (and possibly
+// BM25 scoring); the corpus then consists of documents AND synonym definitions, the definitions placed
+// on the members in any way (split per term, replicated, all on one member).  Aliases carry the mapping
+// (SetIndexMapping: the alias then runs the synonym / BM25 pre-search) or not.  Every member is asked
+// the pre-search request itself (public API: context key search.PreSearchKey) and is listed under the
+// PreSearchData that reaches it; which data that is, is re-derived by the Coq model (ShardsPre.resolve)
+// from the members' pre-search answers and compared — the harness' own walk is only a proposal.
 package main
 
 import (
@@ -17,13 +25,17 @@ import (
 	"sync"
 	"time"
 
+	"context"
+
 	"github.com/blevesearch/bleve/v2"
+	"github.com/blevesearch/bleve/v2/analysis/lang/en"
 	"github.com/blevesearch/bleve/v2/index/scorch"
 	"github.com/blevesearch/bleve/v2/index/upsidedown"
 	"github.com/blevesearch/bleve/v2/index/upsidedown/store/gtreap"
 	"github.com/blevesearch/bleve/v2/mapping"
 	"github.com/blevesearch/bleve/v2/search"
 	"github.com/blevesearch/bleve/v2/search/query"
+	index "github.com/blevesearch/bleve_index_api"
 
 	cf "verifharness/internal/coqfmt"
 	"verifharness/internal/vh"
@@ -38,6 +50,15 @@ type Doc struct {
 	Cat *string  `json:"cat,omitempty"` // keyword, single valued, sometimes absent (sort + facet field)
 	Tag []string `json:"tag,omitempty"` // keyword, 0..3 values (facet field)
 	N   *float64 `json:"n,omitempty"`   // numeric, sometimes absent (sort + range facet field)
+	T   string   `json:"t,omitempty"`   // text (analyzer en, synonym source), pre-search worlds only
+}
+
+// SynDef is one synonym definition of the corpus and the members that hold it.
+type SynDef struct {
+	ID       string   `json:"id"`
+	Input    []string `json:"input,omitempty"` // empty: equivalence definition
+	Synonyms []string `json:"synonyms"`
+	Shards   []int    `json:"shards"`
 }
 
 // Tree is an alias tree: a leaf names a shard, an inner node is an alias of its kids.
@@ -46,6 +67,8 @@ type Tree struct {
 	Kids  []Tree `json:"kids,omitempty"`
 	// AddLater: the last AddLater kids are attached with alias.Add after construction
 	AddLater int `json:"add_later,omitempty"`
+	// Mapped: the alias is given the shared mapping with SetIndexMapping
+	Mapped bool `json:"mapped,omitempty"`
 }
 
 type World struct {
@@ -54,6 +77,11 @@ type World struct {
 	Engines []string `json:"engines"` // engine of every shard
 	Single  string   `json:"single"`  // engine of the index holding everything
 	Tree    Tree     `json:"tree"`
+	// pre-search worlds (scorch members only)
+	Pre     bool     `json:"pre,omitempty"`     // the mapping has the text field "t" with a synonym source
+	Defs    []SynDef `json:"defs,omitempty"`    // synonym definitions, part of the corpus
+	Scoring string   `json:"scoring,omitempty"` // "" | "bm25": the mapping's scoring model
+	Named   bool     `json:"named,omitempty"`   // indexes and aliases get distinct names (else all are "")
 }
 
 type Facet struct {
@@ -65,7 +93,9 @@ type Facet struct {
 }
 
 type Req struct {
-	Query  string   `json:"query"` // "all" | "q=a" | "q=b" | "n<3" | "none"
+	// "all" | "q=a" | "q=b" | "n<3" | "none" | "matchnone" | on the text field: "t:<kind>:<words>" with kind
+	// match | matchand | term | phrase | prefix | fuzzy | qs | and-q (match AND q=a) | or-q (match OR q=b)
+	Query  string   `json:"query"`
 	Sort   []string `json:"sort"`
 	From   int      `json:"from"`
 	Size   int      `json:"size"`
@@ -76,6 +106,8 @@ type Req struct {
 	AfterRaw  []string `json:"after_raw,omitempty"`
 	BeforeRaw []string `json:"before_raw,omitempty"`
 	Facets    []Facet  `json:"facets,omitempty"`
+	// Global: the context asks for global scoring (search.SearchTypeKey = search.GlobalScoring)
+	Global bool `json:"global,omitempty"`
 }
 
 type In struct {
@@ -133,13 +165,101 @@ func genTree(r *vrand.R, shards []int, depth int) Tree {
 	return t
 }
 
-func genWorld(r *vrand.R) World {
+var words = []string{"car", "cart", "automobile", "auto", "vehicle", "motorcar", "truck", "lorry", "van", "bike", "bicycle", "cycle"}
+
+// setMapped decides which aliases of the tree are given the mapping.
+func setMapped(r *vrand.R, t *Tree, mode int, root bool) {
+	if t.Shard != nil {
+		return
+	}
+	switch mode {
+	case 0:
+		t.Mapped = true
+	case 1:
+		t.Mapped = false
+	case 2:
+		t.Mapped = root
+	default:
+		t.Mapped = r.Chance(2, 3)
+	}
+	for i := range t.Kids {
+		setMapped(r, &t.Kids[i], mode, false)
+	}
+}
+
+// genDefs makes the synonym definitions of a pre-search world and places them on the ns members.
+func genDefs(r *vrand.R, ns int) []SynDef {
+	nd := r.Range(3, 8)
+	if r.Chance(1, 10) {
+		nd = r.Range(0, 1)
+	}
+	// a few input terms get several definitions (with different synonyms)
+	hot := []string{vrand.Pick(r, words), vrand.Pick(r, words)}
+	// placement: 0 every definition on one random member (definitions of a term split over members),
+	// 1 every definition on every member, 2 all on one member, 3 any non-empty subset
+	place := vrand.Pick(r, []int{0, 0, 0, 1, 2, 3, 3})
+	one := r.Intn(ns)
+	var defs []SynDef
+	for i := 0; i < nd; i++ {
+		d := SynDef{ID: fmt.Sprintf("syn%02d", i)}
+		if r.Chance(2, 3) {
+			in := vrand.Pick(r, words)
+			if r.Chance(2, 3) {
+				in = vrand.Pick(r, hot)
+			}
+			d.Input = []string{in}
+			if r.Chance(1, 6) {
+				d.Input = append(d.Input, vrand.Pick(r, words))
+			}
+			for k := r.Range(1, 3); k > 0; k-- {
+				d.Synonyms = append(d.Synonyms, vrand.Pick(r, words))
+			}
+		} else {
+			for k := r.Range(2, 4); k > 0; k-- {
+				d.Synonyms = append(d.Synonyms, vrand.Pick(r, words))
+			}
+			if r.Chance(1, 2) {
+				d.Synonyms[0] = vrand.Pick(r, hot)
+			}
+		}
+		switch place {
+		case 0:
+			d.Shards = []int{r.Intn(ns)}
+		case 1:
+			for sh := 0; sh < ns; sh++ {
+				d.Shards = append(d.Shards, sh)
+			}
+		case 2:
+			d.Shards = []int{one}
+		default:
+			for sh := 0; sh < ns; sh++ {
+				if r.Bool() {
+					d.Shards = append(d.Shards, sh)
+				}
+			}
+			if len(d.Shards) == 0 {
+				d.Shards = []int{r.Intn(ns)}
+			}
+		}
+		defs = append(defs, d)
+	}
+	return defs
+}
+
+func genWorld(r *vrand.R, pre bool) World {
 	var w World
+	w.Pre = pre
 	n := r.Range(5, 40)
+	if pre {
+		n = r.Range(5, 26)
+	}
 	if r.Chance(1, 12) {
 		n = r.Range(0, 4)
 	}
 	ns := r.Range(1, 5)
+	if pre && r.Chance(3, 4) {
+		ns = r.Range(2, 5)
+	}
 	skew := r.Chance(1, 3)
 	for i := 0; i < n; i++ {
 		d := Doc{ID: fmt.Sprintf("d%02d", i), Q: "a"}
@@ -160,6 +280,13 @@ func genWorld(r *vrand.R) World {
 			}
 			d.N = &f
 		}
+		if pre && !r.Chance(1, 6) {
+			var ws []string
+			for k := r.Range(1, 3); k > 0; k-- {
+				ws = append(ws, vrand.Pick(r, words))
+			}
+			d.T = strings.Join(ws, " ")
+		}
 		w.Docs = append(w.Docs, d)
 		sh := r.Intn(ns)
 		if skew && r.Chance(2, 3) {
@@ -173,6 +300,18 @@ func genWorld(r *vrand.R) World {
 		w.Engines = append(w.Engines, vrand.Pick(r, []string{"scorch", "upsidedown"}))
 	}
 	w.Single = vrand.Pick(r, []string{"scorch", "upsidedown"})
+	if pre {
+		// synonym definitions and BM25 statistics exist in scorch only
+		for i := range w.Engines {
+			w.Engines[i] = "scorch"
+		}
+		w.Single = "scorch"
+		w.Defs = genDefs(r, ns)
+		if r.Chance(1, 3) {
+			w.Scoring = "bm25"
+		}
+		w.Named = r.Bool()
+	}
 	sh := make([]int, ns)
 	for i := range sh {
 		sh[i] = i
@@ -183,6 +322,9 @@ func genWorld(r *vrand.R) World {
 		// the root is always an alias
 		w.Tree = Tree{Kids: []Tree{w.Tree}}
 	}
+	// which aliases carry the mapping: all / none / the root only / any
+	mode := vrand.Pick(r, []int{0, 0, 0, 0, 1, 2, 3, 3})
+	setMapped(r, &w.Tree, mode, true)
 	return w
 }
 
@@ -219,7 +361,75 @@ func genFacets(r *vrand.R) []Facet {
 
 func genReqs(r *vrand.R, w World, emit func(Req)) {
 	n := len(w.Docs)
-	pickQ := func() string {
+	// terms with definitions, and those whose definitions sit on more than one member
+	var defined, spread []string
+	{
+		on := map[string]map[int]bool{}
+		for _, d := range w.Defs {
+			ts := d.Input
+			if len(ts) == 0 {
+				ts = d.Synonyms
+			}
+			for _, t := range ts {
+				if on[t] == nil {
+					on[t] = map[int]bool{}
+					defined = append(defined, t)
+				}
+				for _, sh := range d.Shards {
+					on[t][sh] = true
+				}
+			}
+		}
+		for _, t := range defined {
+			if len(on[t]) > 1 {
+				spread = append(spread, t)
+			}
+		}
+	}
+	textQ := func() string {
+		w1, w2 := vrand.Pick(r, words), vrand.Pick(r, words)
+		if len(spread) > 0 && r.Chance(3, 5) {
+			w1 = vrand.Pick(r, spread)
+		} else if len(defined) > 0 && r.Chance(3, 4) {
+			w1 = vrand.Pick(r, defined)
+		}
+		switch r.Intn(12) {
+		case 0, 1, 2:
+			return "t:match:" + w1
+		case 3:
+			return "t:match:" + w1 + " " + w2
+		case 4:
+			return "t:matchand:" + w1 + " " + w2
+		case 5:
+			return "t:term:" + w1
+		case 6:
+			// a phrase some document may hold (through a synonym of its first word too)
+			if n > 0 {
+				if ws := strings.Fields(w.Docs[r.Intn(n)].T); len(ws) >= 2 && r.Chance(1, 2) {
+					return "t:phrase:" + ws[0] + " " + ws[1]
+				} else if len(ws) >= 2 {
+					return "t:phrase:" + w1 + " " + ws[1]
+				}
+			}
+			return "t:phrase:" + w1 + " " + w2
+		case 7:
+			return "t:prefix:" + w1[:r.Range(1, len(w1))]
+		case 8:
+			return "t:fuzzy:" + w1
+		case 9:
+			return "t:qs:" + w1
+		case 10:
+			return "t:and-q:" + w1
+		}
+		return "t:or-q:" + w1
+	}
+	pickQ0 := func() string {
+		if w.Pre && r.Chance(4, 5) {
+			return textQ()
+		}
+		if r.Chance(1, 40) {
+			return "matchnone"
+		}
 		switch r.Intn(8) {
 		case 0, 1:
 			return "q=a"
@@ -234,8 +444,25 @@ func genReqs(r *vrand.R, w World, emit func(Req)) {
 		}
 		return "all"
 	}
+	// match-all also returns the synonym definition documents themselves: a definition held by several
+	// members is then a document held by several members, which is no partition of the corpus
+	replicated := false
+	for _, d := range w.Defs {
+		replicated = replicated || len(d.Shards) > 1
+	}
+	pickQ := func() string {
+		q := pickQ0()
+		if replicated && q == "all" {
+			q = "q=a"
+		}
+		return q
+	}
 	base := func() Req {
-		return Req{Query: pickQ(), Sort: vrand.Pick(r, sorts), Facets: genFacets(r)}
+		q := Req{Query: pickQ(), Sort: vrand.Pick(r, sorts), Facets: genFacets(r)}
+		if w.Scoring == "bm25" || r.Chance(1, 10) {
+			q.Global = r.Bool()
+		}
+		return q
 	}
 	// ordinary pages
 	for i := 0; i < 4; i++ {
@@ -307,10 +534,11 @@ func genReqs(r *vrand.R, w World, emit func(Req)) {
 }
 
 func gen(f vh.Flags, r *vrand.R, emit func(In)) {
-	nw := f.N(24, 960)
+	nw := f.N(26, 1040)
 	for i := 0; i < nw; i++ {
 		wr := r.Fork()
-		w := genWorld(wr)
+		// every other world has the synonym-enabled text field and synonym definitions
+		w := genWorld(wr, i%2 == 1)
 		genReqs(wr, w, func(q Req) { emit(In{World: w, Req: q}) })
 	}
 }
@@ -338,22 +566,44 @@ var (
 
 const maxWorlds = 12
 
-func buildMapping() mapping.IndexMapping {
+const synCollection, synSource = "coll", "thes"
+
+func buildMapping(spec World) mapping.IndexMapping {
 	m := bleve.NewIndexMapping()
 	dm := bleve.NewDocumentMapping()
 	dm.AddFieldMappingsAt("q", bleve.NewKeywordFieldMapping())
 	dm.AddFieldMappingsAt("cat", bleve.NewKeywordFieldMapping())
 	dm.AddFieldMappingsAt("tag", bleve.NewKeywordFieldMapping())
 	dm.AddFieldMappingsAt("n", bleve.NewNumericFieldMapping())
+	if spec.Pre {
+		tf := bleve.NewTextFieldMapping()
+		tf.Analyzer = en.AnalyzerName
+		tf.SynonymSource = synSource
+		tf.Store = true
+		dm.AddFieldMappingsAt("t", tf)
+		if err := m.AddSynonymSource(synSource, map[string]interface{}{"collection": synCollection, "analyzer": en.AnalyzerName}); err != nil {
+			panic(err)
+		}
+	}
+	if spec.Scoring == "bm25" {
+		m.ScoringModel = index.BM25Scoring
+	}
 	m.DefaultMapping = dm
+	if err := m.Validate(); err != nil {
+		panic(err)
+	}
 	return m
 }
 
-func newIndex(engine string) (bleve.Index, error) {
+func newIndex(engine string, m mapping.IndexMapping) (bleve.Index, error) {
 	if engine == "upsidedown" {
-		return bleve.NewUsing("", buildMapping(), upsidedown.Name, gtreap.Name, nil)
+		return bleve.NewUsing("", m, upsidedown.Name, gtreap.Name, nil)
 	}
-	return bleve.NewUsing("", buildMapping(), scorch.Name, scorch.Name, nil)
+	return bleve.NewUsing("", m, scorch.Name, scorch.Name, nil)
+}
+
+func synDef(d SynDef) *bleve.SynonymDefinition {
+	return &bleve.SynonymDefinition{Input: d.Input, Synonyms: d.Synonyms}
 }
 
 func docBody(d Doc) map[string]interface{} {
@@ -373,21 +623,78 @@ func docBody(d Doc) map[string]interface{} {
 	if d.N != nil {
 		b["n"] = *d.N
 	}
+	if d.T != "" {
+		b["t"] = d.T
+	}
 	return b
 }
 
 func (w *world) build(spec World) {
+	defer func() {
+		if e := recover(); e != nil {
+			w.err = fmt.Errorf("building the world: %v", e)
+		}
+	}()
 	ns := len(spec.Engines)
+	// one mapping object per index / alias, all the same
 	for i := 0; i < ns; i++ {
-		ix, err := newIndex(spec.Engines[i])
+		ix, err := newIndex(spec.Engines[i], buildMapping(spec))
 		if err != nil {
 			w.err = err
 			return
 		}
+		if spec.Named {
+			ix.SetName(fmt.Sprintf("%s-s%d", w.key[:8], i))
+		}
 		w.shards = append(w.shards, ix)
 	}
 	var err error
-	if w.single, err = newIndex(spec.Single); err != nil {
+	if w.single, err = newIndex(spec.Single, buildMapping(spec)); err != nil {
+		w.err = err
+		return
+	}
+	if spec.Named {
+		w.single.SetName(w.key[:8] + "-single")
+	}
+	// synonym definitions: some before the documents, the rest after; singly or in a batch
+	putDefs := func(lo, hi int) error {
+		sb := w.single.NewBatch()
+		for k := lo; k < hi; k++ {
+			d := spec.Defs[k]
+			for _, sh := range d.Shards {
+				if sh < 0 || sh >= ns {
+					return fmt.Errorf("bad definition placement")
+				}
+				if k%2 == 0 {
+					si, ok := w.shards[sh].(bleve.SynonymIndex)
+					if !ok {
+						return fmt.Errorf("member is no SynonymIndex")
+					}
+					if err := si.IndexSynonym(d.ID, synCollection, synDef(d)); err != nil {
+						return err
+					}
+				} else {
+					b := w.shards[sh].NewBatch()
+					if err := b.IndexSynonym(d.ID, synCollection, synDef(d)); err != nil {
+						return err
+					}
+					if err := w.shards[sh].Batch(b); err != nil {
+						return err
+					}
+				}
+			}
+			if err := sb.IndexSynonym(d.ID, synCollection, synDef(d)); err != nil {
+				return err
+			}
+		}
+		return w.single.Batch(sb)
+	}
+	if !spec.Pre && len(spec.Defs) > 0 {
+		w.err = fmt.Errorf("definitions without a synonym source")
+		return
+	}
+	half := len(spec.Defs) / 2
+	if err := putDefs(0, half); err != nil {
 		w.err = err
 		return
 	}
@@ -445,6 +752,11 @@ func (w *world) build(spec World) {
 		w.err = err
 		return
 	}
+	if err := putDefs(half, len(spec.Defs)); err != nil {
+		w.err = err
+		return
+	}
+	nalias := 0
 	var mk func(t Tree, depth int) (bleve.Index, error)
 	mk = func(t Tree, depth int) (bleve.Index, error) {
 		if depth > w.depth {
@@ -472,6 +784,15 @@ func (w *world) build(spec World) {
 		al := bleve.NewIndexAlias(kids[:len(kids)-later]...)
 		for _, k := range kids[len(kids)-later:] {
 			al.Add(k)
+		}
+		if spec.Named {
+			al.SetName(fmt.Sprintf("%s-a%d", w.key[:8], nalias))
+			nalias++
+		}
+		if t.Mapped {
+			if err := al.SetIndexMapping(buildMapping(spec)); err != nil {
+				return nil, err
+			}
 		}
 		return al, nil
 	}
@@ -531,7 +852,51 @@ func putWorld(w *world) {
 // ---------------------------------------------------------------- requests
 
 func mkQuery(q string) query.Query {
+	if parts := strings.SplitN(q, ":", 3); len(parts) == 3 && parts[0] == "t" {
+		kind, arg := parts[1], parts[2]
+		match := func() *query.MatchQuery {
+			mq := bleve.NewMatchQuery(arg)
+			mq.SetField("t")
+			return mq
+		}
+		qterm := func(v string) query.Query {
+			tq := bleve.NewTermQuery(v)
+			tq.SetField("q")
+			return tq
+		}
+		switch kind {
+		case "matchand":
+			mq := match()
+			mq.SetOperator(query.MatchQueryOperatorAnd)
+			return mq
+		case "term":
+			tq := bleve.NewTermQuery(arg)
+			tq.SetField("t")
+			return tq
+		case "phrase":
+			pq := bleve.NewMatchPhraseQuery(arg)
+			pq.SetField("t")
+			return pq
+		case "prefix":
+			pq := bleve.NewPrefixQuery(arg)
+			pq.SetField("t")
+			return pq
+		case "fuzzy":
+			mq := match()
+			mq.SetFuzziness(1)
+			return mq
+		case "qs":
+			return bleve.NewQueryStringQuery("t:" + arg)
+		case "and-q":
+			return bleve.NewConjunctionQuery(match(), qterm("a"))
+		case "or-q":
+			return bleve.NewDisjunctionQuery(match(), qterm("b"))
+		}
+		return match()
+	}
 	switch q {
+	case "matchnone":
+		return bleve.NewMatchNoneQuery()
 	case "q=a", "q=b":
 		tq := bleve.NewTermQuery(q[2:])
 		tq.SetField("q")
@@ -644,6 +1009,134 @@ func optKeys(ks []string) cf.T {
 	return cf.Some(keysT(ks))
 }
 
+// ---------------------------------------------------------------- pre-search data
+
+// pres is what an index / alias answers to a pre-search request (nil = Go nil).
+type pres struct {
+	syn search.FieldTermSynonymMap
+	bm  *search.BM25Stats
+}
+
+// pdata is the PreSearchData handed to a member.
+type pdata struct {
+	hasSyn bool
+	syn    search.FieldTermSynonymMap
+	bm     *search.BM25Stats
+}
+
+func ftsT(f search.FieldTermSynonymMap) cf.T {
+	fields := make([]string, 0, len(f))
+	for fd := range f {
+		fields = append(fields, fd)
+	}
+	sort.Strings(fields)
+	return cf.ListOf(fields, func(fd string) cf.T {
+		terms := make([]string, 0, len(f[fd]))
+		for t := range f[fd] {
+			terms = append(terms, t)
+		}
+		sort.Strings(terms)
+		return cf.Pair(cf.Str(fd), cf.ListOf(terms, func(t string) cf.T { return cf.Pair(cf.Str(t), keysT(f[fd][t])) }))
+	})
+}
+
+func bmT(b *search.BM25Stats) cf.T {
+	if b == nil {
+		return cf.None
+	}
+	if b.DocCount != math.Trunc(b.DocCount) || b.DocCount < 0 || b.DocCount > 1e15 {
+		panic(fmt.Sprintf("BM25Stats.DocCount is no count: %v", b.DocCount))
+	}
+	fields := make([]string, 0, len(b.FieldCardinality))
+	for fd := range b.FieldCardinality {
+		fields = append(fields, fd)
+	}
+	sort.Strings(fields)
+	return cf.Some(cf.App("Build_bm25", cf.Z(int64(b.DocCount)),
+		cf.ListOf(fields, func(fd string) cf.T { return cf.Pair(cf.Str(fd), cf.Int(b.FieldCardinality[fd])) })))
+}
+
+func presT(p pres) cf.T {
+	syn := cf.None
+	if p.syn != nil {
+		syn = cf.Some(ftsT(p.syn))
+	}
+	return cf.App("Build_presult", syn, bmT(p.bm))
+}
+
+func pdataT(d *pdata) cf.T {
+	if d == nil {
+		return cf.None
+	}
+	syn := cf.None
+	if d.hasSyn {
+		syn = cf.Some(ftsT(d.syn))
+	}
+	return cf.Some(cf.App("Build_pdata", syn, bmT(d.bm)))
+}
+
+// combine adds up members' pre-search answers for the raised flags (the harness' own few lines; the
+// Coq model decides whether the data proposed this way is the data that reaches a member).
+func combine(synFlag, bmFlag bool, rs []pres) pres {
+	var out pres
+	if synFlag {
+		for _, r := range rs {
+			if r.syn == nil {
+				continue
+			}
+			if out.syn == nil {
+				out.syn = search.FieldTermSynonymMap{}
+			}
+			for fd, tm := range r.syn {
+				if out.syn[fd] == nil {
+					out.syn[fd] = map[string][]string{}
+				}
+				for t, ss := range tm {
+					for _, x := range ss {
+						dup := false
+						for _, y := range out.syn[fd][t] {
+							dup = dup || x == y
+						}
+						if !dup {
+							out.syn[fd][t] = append(out.syn[fd][t], x)
+						}
+					}
+				}
+			}
+		}
+		for _, tm := range out.syn {
+			for t := range tm {
+				sort.Strings(tm[t])
+			}
+		}
+	}
+	if bmFlag {
+		out.bm = &search.BM25Stats{FieldCardinality: map[string]int{}}
+		for _, r := range rs {
+			if r.bm != nil {
+				out.bm.DocCount += r.bm.DocCount
+				for fd, c := range r.bm.FieldCardinality {
+					out.bm.FieldCardinality[fd] += c
+				}
+			}
+		}
+	}
+	return out
+}
+
+func (d *pdata) request(req *bleve.SearchRequest) {
+	if d == nil {
+		return
+	}
+	req.PreSearchData = map[string]interface{}{}
+	if d.hasSyn {
+		req.PreSearchData[search.SynonymPreSearchDataKey] = d.syn
+	}
+	if d.bm != nil {
+		req.PreSearchData[search.BM25PreSearchDataKey] = &search.BM25Stats{DocCount: d.bm.DocCount, FieldCardinality: d.bm.FieldCardinality}
+	}
+}
+
 // ---------------------------------------------------------------- execution
 
 func exec(in In) vh.Result {
@@ -658,17 +1151,23 @@ func exec(in In) vh.Result {
 	if w.err != nil {
 		return vh.Result{Direct: &vh.Direct{Kind: "build-error", Detail: w.err.Error()}}
 	}
-	ndocs := len(in.World.Docs)
+	// match-all also returns the synonym definition documents
+	ndocs := len(in.World.Docs) + len(in.World.Defs)
 	order := func() search.SortOrder { return search.ParseSortOrderStrings(q.Sort) }
 
 	var term cf.T
-	var nShardsWithMatches, total int
+	var nShardsWithMatches, nShardsWithSyn, total int
+	var handed, handedSyn bool
+	ctx := context.Background()
+	if q.Global {
+		ctx = context.WithValue(ctx, search.SearchTypeKey, search.GlobalScoring)
+	}
 	kind := "page"
 	d := vh.Guard(60*time.Second, "alias search", func() {
 		// paging keys
 		after, before := q.AfterRaw, q.BeforeRaw
 		if q.AfterIdx != nil || q.BeforeIdx != nil {
-			full, err := w.single.Search(mkReq(q, ndocs+5, 0, order(), nil, nil))
+			full, err := w.single.SearchInContext(ctx, mkReq(q, ndocs+5, 0, order(), nil, nil))
 			if err != nil {
 				panic(err)
 			}
@@ -700,10 +1199,58 @@ func exec(in In) vh.Result {
 		if before != nil {
 			eff.Reverse()
 		}
-		var mkTree func(t Tree) cf.T
-		mkTree = func(t Tree) cf.T {
+		// ---- the pre-search phase
+		matchNone := q.Query == "matchnone"
+		synField := in.World.Pre && strings.HasPrefix(q.Query, "t:")
+		bm25 := in.World.Scoring == "bm25"
+		preCtx := context.WithValue(ctx, search.PreSearchKey, true)
+		askPre := func(ix bleve.Index) pres {
+			r, err := ix.SearchInContext(preCtx, &bleve.SearchRequest{Query: mkQuery(q.Query)})
+			if err != nil {
+				panic(err)
+			}
+			return pres{syn: r.SynonymResult, bm: r.BM25Stats}
+		}
+		leafPre := make([]pres, len(w.shards))
+		for i, sh := range w.shards {
+			leafPre[i] = askPre(sh)
+		}
+		// an alias that is a member of another alias answering a pre-search request
+		var presearchT func(t Tree) pres
+		presearchT = func(t Tree) pres {
 			if t.Shard != nil {
-				lr, err := w.shards[*t.Shard].Search(mkReq(q, ndocs+5, 0, eff.Copy(), nil, nil))
+				return leafPre[*t.Shard]
+			}
+			var rs []pres
+			for _, k := range t.Kids {
+				rs = append(rs, presearchT(k))
+			}
+			return combine(!matchNone, t.Mapped && bm25, rs)
+		}
+		// the data an alias hands to its members
+		aliasData := func(t Tree, data *pdata) *pdata {
+			if len(t.Kids) < 2 || data != nil {
+				return data
+			}
+			synFlag := !matchNone && t.Mapped && synField
+			bmFlag := !matchNone && q.Global && t.Mapped && bm25
+			if !synFlag && !bmFlag {
+				return nil
+			}
+			var rs []pres
+			for _, k := range t.Kids {
+				rs = append(rs, presearchT(k))
+			}
+			c := combine(synFlag, bmFlag, rs)
+			return &pdata{hasSyn: synFlag, syn: c.syn, bm: c.bm}
+		}
+
+		var mkTree func(t Tree, data *pdata) cf.T
+		mkTree = func(t Tree, data *pdata) cf.T {
+			if t.Shard != nil {
+				lreq := mkReq(q, ndocs+5, 0, eff.Copy(), nil, nil)
+				data.request(lreq)
+				lr, err := w.shards[*t.Shard].SearchInContext(ctx, lreq)
 				if err != nil {
 					panic(err)
 				}
@@ -711,21 +1258,34 @@ func exec(in In) vh.Result {
 					nShardsWithMatches++
 				}
 				total += len(lr.Hits)
-				return cf.App("Leaf", cf.App("Build_leaf",
-					cf.ListOf([]*search.DocumentMatch(lr.Hits), hitT), fbits(lr.MaxScore), facetsT(lr.Facets)))
+				if data != nil {
+					handed = true
+					if data.hasSyn && len(data.syn) > 0 {
+						handedSyn = true
+					}
+				}
+				if leafPre[*t.Shard].syn != nil {
+					nShardsWithSyn++
+				}
+				leaf := cf.App("Build_leaf",
+					cf.ListOf([]*search.DocumentMatch(lr.Hits), hitT), fbits(lr.MaxScore), facetsT(lr.Facets))
+				return cf.App("SLeaf", cf.App("Build_sleaf", presT(leafPre[*t.Shard]), pdataT(data), leaf))
 			}
-			return cf.App("Alias", cf.ListOf(t.Kids, mkTree))
+			d := aliasData(t, data)
+			return cf.App("SAlias", cf.Bool(t.Mapped), cf.ListOf(t.Kids, func(k Tree) cf.T { return mkTree(k, d) }))
 		}
-		treeT := mkTree(in.World.Tree)
+		treeT := mkTree(in.World.Tree, nil)
+		singlePre := askPre(w.single)
 
-		rs, errS := w.single.Search(mkReq(q, q.Size, from, order(), after, before))
-		ra, errA := w.root.Search(mkReq(q, q.Size, from, order(), after, before))
+		rs, errS := w.single.SearchInContext(ctx, mkReq(q, q.Size, from, order(), after, before))
+		ra, errA := w.root.SearchInContext(ctx, mkReq(q, q.Size, from, order(), after, before))
 
 		desc := cf.ListOf([]search.SearchSort(order()), func(s search.SearchSort) cf.T { return cf.Bool(s.Descending()) })
 		fsizes := cf.ListOf(q.Facets, func(f Facet) cf.T { return cf.Pair(cf.Str(f.Name), cf.Int(f.Size)) })
 		// facet names sorted, as facetsT prints them
 		rq := cf.App("Build_request", desc, cf.Int(from), cf.Int(q.Size), optKeys(after), optKeys(before), fsizes)
-		term = cf.App("CAlias", rq, treeT, oresultT(rs, errS), oresultT(ra, errA))
+		pc := cf.App("Build_pcfg", cf.Bool(matchNone), cf.Bool(synField), cf.Bool(bm25), cf.Bool(q.Global))
+		term = cf.App("CAliasPre", pc, rq, treeT, presT(singlePre), oresultT(rs, errS), oresultT(ra, errA))
 		if q.Size == 0 && from > 0 {
 			kind = "size0-from"
 		} else if q.Size == 0 {
@@ -747,10 +1307,24 @@ func exec(in In) vh.Result {
 		fk = "facets:yes"
 	}
 	mix := "engines:" + strings.Join(uniq(append([]string{}, in.World.Engines...)), "+")
+	qk := q.Query
+	if parts := strings.SplitN(qk, ":", 3); len(parts) == 3 {
+		qk = parts[0] + ":" + parts[1]
+	}
+	pk := "presearch:none"
+	if handedSyn {
+		pk = "presearch:synonyms-handed"
+	} else if handed {
+		pk = "presearch:ran-no-synonyms"
+	}
 	res.Hist = []string{
 		fmt.Sprintf("shards:%d", len(in.World.Engines)), fmt.Sprintf("depth:%d", w.depth), "kind:" + kind,
-		"sort:" + strings.Join(q.Sort, ","), fk, mix, "query:" + q.Query,
-		fmt.Sprintf("shards-with-matches:%d", nShardsWithMatches),
+		"sort:" + strings.Join(q.Sort, ","), fk, mix, "query:" + qk,
+		fmt.Sprintf("shards-with-matches:%d", nShardsWithMatches), pk,
+	}
+	if in.World.Pre {
+		res.Hist = append(res.Hist, fmt.Sprintf("members-with-synonyms-for-query:%d", nShardsWithSyn),
+			"scoring:"+in.World.Scoring+fmt.Sprintf("/global=%v", q.Global))
 	}
 	return res
 }
@@ -769,7 +1343,7 @@ func uniq(xs []string) []string {
 func main() {
 	vh.Main(vh.Config{
 		Property:  "C09",
-		Imports:   []string{"Common.Bytes", "Collect.Shards", "Collect.ShardsCorr"},
+		Imports:   []string{"Common.Bytes", "Collect.Shards", "Collect.ShardsPre", "Collect.ShardsCorr"},
 		CaseType:  "ShardsCorr.case",
 		CheckFn:   "ShardsCorr.check",
 		ExplainFn: "ShardsCorr.explain",
@@ -777,7 +1351,11 @@ func main() {
 			"indexes (scorch and upsidedown mixed), reached through an alias tree of depth <= 3 (single-member aliases, members added with Add); requests: match-all / term / numeric-range / no-match " +
 			"queries, score-independent total sorts (_id, -_id, field(s) then _id in both directions), pages Size in {1..n+5} x From in {0..n+3}, Size = 0 with From = 0 / > 0 / beyond the end, " +
 			"SearchAfter and SearchBefore from every position of the listing and from keys of no document, terms facets (covering and non-covering sizes, with and without a prefix filter) and numeric range facets, Fields = *; " +
-			"each request runs on the alias root and on one index holding everything; non-trivial: at least two members hold matching documents",
+			"every other world is a pre-search world: scorch members only, a text field (analyzer en) with a synonym source, 0..8 synonym definitions (explicit and equivalence, several for one input term) " +
+			"placed on the members in any way (each on one member so that a term's definitions are split, all on every member, all on one member, any subsets), tf-idf or BM25 scoring, named or unnamed indexes; " +
+			"match / match-AND / term / phrase / prefix / fuzzy / query-string / boolean queries on that field; aliases with and without SetIndexMapping (all, none, the root only, any), requests with and without global scoring; " +
+			"every member is also asked the pre-search request and listed under the PreSearchData the model says reaches it; " +
+			"each request runs on the alias root and on one index holding everything (all documents and all definitions); non-trivial: at least two members hold matching documents",
 		ShardSize: 24,
 	}, gen, exec)
 }
